@@ -803,6 +803,18 @@ void run_c15(Judge& j, uint64_t extra_random) {
         sub("w/#", false, {}, wild_ok ? 0 : 108);
         sub("$share/grp/{tag}t", true, {}, shared_ok ? 0 : 110);
         { ref::Props p; ref::Prop x; x.id = 0x0B; x.num = 7; p.push_back(x); sub("idf", false, p, shared_ok ? 0 : 109); }
+        // lists of filters: one filter the broker disabled spoils the request wherever it stands
+        if (!mps || mps >= 200) {
+            auto multi = [&](std::vector<std::string> fl, int expect) {
+                Action s; s.kind = Action::subscribe; s.at = t; t += 1 * MS; s.raw_topic = true;
+                for (auto& f : fl) s.subs.emplace_back(f, 1);
+                s.expect_immediate = expect != 0; s.expect_ec = expect; sc.script.push_back(s);
+            };
+            multi({"{tag}w/#", "{tag}plain"}, wild_ok ? 0 : 108);
+            multi({"{tag}p1", "{tag}w/+/x", "{tag}p2"}, wild_ok ? 0 : 108);
+            multi({"$share/grp/{tag}t", "{tag}plain"}, shared_ok ? 0 : 110);
+            multi({"{tag}plain", "$share/grp/{tag}t2"}, shared_ok ? 0 : 110);
+        }
         // SUBSCRIBE / UNSUBSCRIBE size boundary: exactly the limit and one byte more
         if (mps) {
             for (int un = 0; un < 2; ++un) {
@@ -843,15 +855,19 @@ void run_c15(Judge& j, uint64_t extra_random) {
     // identifiers are not consumed by refused requests: 70 000 refusals, then 65 535 accepted requests must not overrun
     if (int(idx++ % ctx.nshards) == ctx.shard) {
         Scenario sc; sc.family = "c15-idleak"; sc.seed = ctx.seed;
-        sc.bcfg.caps.maximum_qos = 0; sc.bcfg.caps.wildcard_available = 0;
+        sc.bcfg.caps.maximum_qos = 0; sc.bcfg.caps.wildcard_available = 0; sc.bcfg.caps.maximum_packet_size = 60;
         sc.bcfg.silent_after_connack = true;
         sc.auto_receive = false;
         Action r; r.kind = Action::run; sc.script.push_back(r);
         int refused = ctx.thorough ? 70000 : 4000;
         for (int k = 0; k < refused; ++k) {
             Action p; p.at = 1 * SEC;
-            if (k % 2) { p.kind = Action::publish; p.qos = 1 + (k / 2) % 2; p.topic = "x"; p.payload = ""; p.expect_immediate = true; p.expect_ec = 105; }
-            else { p.kind = Action::subscribe; p.subs = {{"a/#", 0}}; p.expect_immediate = true; p.expect_ec = 108; }
+            switch (k % 4) {   // every kind of refusal: capability, and size (which is only known once the packet, id included, is encoded)
+                case 0: p.kind = Action::subscribe; p.subs = {{"a/#", 0}}; p.expect_immediate = true; p.expect_ec = 108; break;
+                case 1: p.kind = Action::publish; p.qos = 1 + (k / 4) % 2; p.topic = "x"; p.payload = ""; p.expect_immediate = true; p.expect_ec = 105; break;
+                case 2: p.kind = Action::unsubscribe; p.subs = {{std::string(80, 'u'), 0}}; p.expect_immediate = true; p.expect_ec = 101; break;
+                default: p.kind = Action::subscribe; p.subs = {{std::string(80, 's'), 0}}; p.expect_immediate = true; p.expect_ec = 101; break;
+            }
             sc.script.push_back(p);
         }
         for (int k = 0; k < 65535; ++k) { Action s; s.kind = Action::unsubscribe; s.at = 2 * SEC; s.subs = {{"u", 0}}; sc.script.push_back(s); }
